@@ -4,12 +4,17 @@
 # ########################################### #
 
 import os
+import re
 
 
 def specialize_source(source, specialize_for, search_in_folders=[]):
     assert specialize_for in ["cpu_serial", "cpu_openmp", "opencl", "cuda"]
 
-    source_lines = source.splitlines()
+    # (not str.splitlines(): form feeds, vertical tabs and the other separators
+    # it also breaks at are ordinary text of a C source)
+    source_lines = re.split(r"\r\n|\r|\n", source)
+    if source_lines and source_lines[-1] == "":
+        source_lines.pop()
 
     lines = []
     for ll in source_lines:
